@@ -170,6 +170,7 @@ def run_task(interp_factory, target, contract, name=None, args_builder=None, set
             for nm, tx in contract.defs:
                 ctx.assume(interp.truth(interp.eval_spec(tx, entry)))
             ctx.base_len = len(ctx.pc)
+            ctx.entry_addr = ctx.next_addr
             ctx.oblige("canary.requires_satisfiable", z3.BoolVal(False), fi.node, kind="canary")
             interp.old_state = interp.snapshot()
             entry_vals = dict(entry.vars)
@@ -260,10 +261,34 @@ def _frame_obligations(interp, contract, spec_fr, line):
     for tx in contract.modifies:
         if isinstance(tx, tuple) and tx[0] == "field":
             allowed_fields.add((tx[1], tx[2]))
+        elif isinstance(tx, tuple):
+            continue
         else:
             allowed_lists.append(interp.eval_spec(tx, spec_fr).z)
+    allowed_cells = set()
+    if contract.target.endswith(".__init__") and "self" in spec_fr.vars and spec_fr.vars["self"].kind == "ref":
+        allowed_cells.add((spec_fr.vars["self"].addr, None))      # a constructor initialises the object it is given
+    for tx in contract.modifies:
+        if isinstance(tx, tuple) and tx[0] == "attrs":
+            v = interp.eval_spec(tx[1], spec_fr)
+            if v.kind == "ref":
+                allowed_cells.add((v.addr, None))
+        elif isinstance(tx, tuple) and tx[0] == "attr":
+            v = interp.eval_spec(tx[1], spec_fr)
+            if v.kind == "ref":
+                allowed_cells.add((v.addr, tx[2]))
     seen = set()
     for w in ctx.written:
+        if w[0] == "cell":
+            _, addr, what, node = w
+            if (addr, None) in allowed_cells or (addr, what) in allowed_cells:
+                continue
+            k = ("cell", addr, what)
+            if k in seen:
+                continue
+            seen.add(k)
+            ctx.oblige(f"frame.store_into_pre_existing_object.{what}@line{getattr(node, 'lineno', 0)}", z3.BoolVal(False), node, kind="frame")
+            continue
         if w[0] == "list":
             ref = w[1]
             k = ("list", ref.get_id())
